@@ -83,8 +83,11 @@ def open_features() -> set:
 
 def attribute(pid: str, outcome: Outcome) -> Optional[str]:
     """Return the id of the open known finding this failure belongs to, if any."""
-    for k in open_findings(pid):
-        if k.get("kinds") and outcome.kind not in k["kinds"]:
+    for k in open_findings():
+        if k["property"] == pid:
+            if k.get("kinds") and outcome.kind not in k["kinds"]:
+                continue
+        elif not k.get("excluded_shape_in_other_properties"):
             continue
         if set(k.get("features", [])) <= set(outcome.features):
             return k["id"]
